@@ -120,12 +120,39 @@ def run(prog: Program, rep: Report, tier: str):
     rule_flatten(prog, rep, "C08.flatten")
     from .merge import rule_merge_transforms
     rule_merge_transforms(prog, rep, "C08.merge")
+    rule_field_converters(prog, rep)
     from .lints import rule_truthy
     rule_truthy(prog, rep, "C08.truthy", lambda m: m.name.startswith("flowjax.bijections") or m.name in (
         "flowjax.utils", "flowjax.distributions"))
     if tier == "thorough":
         from ..audit import audit_generic
         audit_generic(prog, rep, "C08")
+
+
+CONVERTER_OK = ("jnp.asarray", "jnp.array", "jax.numpy.asarray", "tuple", "float", "int", "bool", "arraylike_to_array")
+
+
+def rule_field_converters(prog, rep):
+    """A field declared with eqx.field(converter=f) stores f(argument), silently, between the constructor call and
+    __check_init__: for the bijection classes the only admissible converters are casts (asarray, tuple, float ...);
+    anything else rewrites what the combinator was asked to do (index sets, axes, shapes)."""
+    n = 0
+    for c in bijection_classes(prog) + [prog.cls("flowjax.bijections.bijection._VectorizedBijection")]:
+        for fname, fi in c.fields.items():
+            d = fi.default
+            if not (isinstance(d, ast.Call) and ast.unparse(d.func).endswith("field")):
+                continue
+            for kw in d.keywords:
+                if kw.arg != "converter":
+                    continue
+                n += 1
+                src = ast.unparse(kw.value)
+                ok = src in CONVERTER_OK
+                rep.check(ok, "C08.shape", f"{c.module.relpath}:{fi.lineno}", f"{c.qualname}.{fname}:converter",
+                          f"converter {src} is a cast",
+                          f"field {fname} of {c.name} is declared with converter={src}: the value the methods use is "
+                          f"not the one the constructor was given (documented: stored as passed)")
+    rep.holds("C08.shape", "-", "field-converters-scanned", f"{n} field converters on bijection classes", nontrivial=False)
 
 
 def rule_defs(prog, rep):
